@@ -249,18 +249,21 @@ func (u *upstream) getClient(addr string) (*client, error) {
 
 func (u *upstream) createClient(addr string) (*client, error) {
 	u.clientsMu.Lock()
-	defer u.clientsMu.Unlock()
-
 	select {
 	case <-u.quit:
+		u.clientsMu.Unlock()
 		return nil, errors.New(upstreamExited)
 	default:
 	}
 	c, ok := u.loadClients()[addr]
+	u.clientsMu.Unlock()
 	if ok {
 		return c, nil
 	}
 
+	// connect without the lock: a node that is slow to answer (or does not answer at
+	// all) must not keep the connections of the other nodes from being added to and
+	// removed from the table for the whole connect timeout.
 	conn, err := netutil.Dial("tcp", addr, *u.cfg.ConnectTimeout)
 	if err != nil {
 		return nil, err
@@ -272,7 +275,24 @@ func (u *upstream) createClient(addr string) (*client, error) {
 	}
 	c, err = newClient(conn, u.cfg, u.logger, options...)
 	if err != nil {
+		conn.Close()
 		return nil, err
+	}
+
+	u.clientsMu.Lock()
+	defer u.clientsMu.Unlock()
+	// Stop may have taken its snapshot of the table while the connect was in
+	// progress: what is added after quit would never be stopped.
+	select {
+	case <-u.quit:
+		conn.Close()
+		return nil, errors.New(upstreamExited)
+	default:
+	}
+	// another attempt for the address may have got there first.
+	if existing, ok := u.loadClients()[addr]; ok {
+		conn.Close()
+		return existing, nil
 	}
 
 	// start client
